@@ -15,6 +15,9 @@ import FeatModel.Lemmas.C15Volume
 import FeatModel.Lemmas.C15Unmap
 import FeatModel.Lemmas.C15ConformMesh
 import FeatModel.Lemmas.C15RT
+import FeatModel.Lemmas.C15RTChecked
+import FeatModel.Lemmas.C15D1
+import FeatModel.Lemmas.C15UnmapShapes
 import FeatModel.Lemmas.C15AnyCell
 /-!
 # C15 — finite-element bases are unisolvent, derivative-consistent and conforming: property theorems
@@ -394,7 +397,8 @@ theorem C15.volq_quadrature_exact (V : List (List Rat)) :
 
 /-- Model of `InverseMapping::unmap_point_by_newton` (any cell, affine or multilinear): **if the iteration reports
     convergence, the returned reference point is a preimage of the requested point up to the Newton tolerance**.
-    `_partial`: convergence itself is proved for affine cells only (`C15.unmap_map_affine`); the model uses the
+    `_partial`: convergence itself is proved for affine cells only (triangles, tetrahedra, intervals, parallelograms:
+    `C15.unmap_map_affine`, `C15.unmap_map_tetrahedron`, `C15.unmap_map_interval`, `C15.unmap_map_parallelogram`); the model uses the
     rational tolerance `2^-47` and exact arithmetic, FEAT `eps^0.9` in floating point (compared after rounding). -/
 theorem C15.unmap_converged_is_preimage_partial (k : Kind) (d : Nat) (V : List (List Rat)) (p r : List Rat)
     (h : unmapNewton k d V p = (true, r)) : defectSq k d V p r < newtonTolSq :=
@@ -491,6 +495,79 @@ theorem C15.rt_unweighted_mean_not_dual :
     (rtDualMatrix (rtFunctionalUnweighted FeatModel.Proto.qsqrt gammaEv) FeatModel.Proto.qsqrt gammaEv cubeMoved7 0
       != some (identity 6)) = true :=
   ⟨witness_inverse, witness_unweighted⟩
+
+
+/-! ## Final round: inverse mapping on all affine cells, discontinuous P1 on hypercubes, Rannacher–Turek without hypothesis -/
+
+/-- **One Newton step of the inverse mapping is exact wherever the cell is affine** (any shape, dimension 1–3): if
+    `T(x) - T(s) = J(x)(x - s)` (`AffineAt`) and `det J(x) ≠ 0`, the step of the model of `unmap_point_by_newton`
+    from `x` for the target `T(s)` returns exactly `s`. -/
+theorem C15.newton_step_exact_on_affine (k : Kind) (d : Nat) (hd : d = 1 ∨ d = 2 ∨ d = 3) (V : List (List Rat))
+    (hV : worldDim V = d) (s x : List Rat) (hs : s.length = d) (hdet : det d (jacMat k d V x) ≠ 0)
+    (haff : AffineAt k d V x s) : newtonStep k d V (mapPoint k d V s) x = s :=
+  newton_step_exact k d hd V hV s x hs hdet haff
+
+/-- **`unmap(map(x)) = x` on every non-degenerate tetrahedron** (either orientation): the model of the inverse mapping
+    applied to `T(s)` converges and returns exactly `s` – unless `T(s)` is within the tolerance of the image of the cell
+    centre, where the iteration stops immediately. -/
+theorem C15.unmap_map_tetrahedron (V : List (List Rat)) (hV : worldDim V = 3) (s0 s1 s2 : Rat)
+    (hdet : det 3 (jacMat Kind.S 3 V (refCentre Kind.S 3)) ≠ 0) :
+    ∃ r, unmapNewton Kind.S 3 V (mapPoint Kind.S 3 V [s0, s1, s2]) = (true, r) ∧
+      (r = [s0, s1, s2] ∨ (r = refCentre Kind.S 3 ∧
+        defectSq Kind.S 3 V (mapPoint Kind.S 3 V [s0, s1, s2]) (refCentre Kind.S 3) < newtonTolSq)) :=
+  unmap_map_S3 V hV s0 s1 s2 hdet
+
+/-- **`unmap(map(x)) = x` on every interval** `[a, b]`, `a ≠ b` (either orientation). -/
+theorem C15.unmap_map_interval (V : List (List Rat)) (hV : worldDim V = 1) (s0 : Rat)
+    (hdet : det 1 (jacMat Kind.H 1 V (refCentre Kind.H 1)) ≠ 0) :
+    ∃ r, unmapNewton Kind.H 1 V (mapPoint Kind.H 1 V [s0]) = (true, r) ∧
+      (r = [s0] ∨ (r = refCentre Kind.H 1 ∧
+        defectSq Kind.H 1 V (mapPoint Kind.H 1 V [s0]) (refCentre Kind.H 1) < newtonTolSq)) :=
+  unmap_map_H1 V hV s0 hdet
+
+/-- **`unmap(map(x)) = x` on every non-degenerate parallelogram** (`v0 - v1 - v2 + v3 = 0`, either orientation). -/
+theorem C15.unmap_map_parallelogram (V : List (List Rat)) (hV : worldDim V = 2) (s0 s1 : Rat)
+    (hpar : ∀ a, a < 2 → (V.getD 0 []).getD a 0 - (V.getD 1 []).getD a 0 - (V.getD 2 []).getD a 0
+      + (V.getD 3 []).getD a 0 = 0)
+    (hdet : det 2 (jacMat Kind.H 2 V (refCentre Kind.H 2)) ≠ 0) :
+    ∃ r, unmapNewton Kind.H 2 V (mapPoint Kind.H 2 V [s0, s1]) = (true, r) ∧
+      (r = [s0, s1] ∨ (r = refCentre Kind.H 2 ∧
+        defectSq Kind.H 2 V (mapPoint Kind.H 2 V [s0, s1]) (refCentre Kind.H 2) < newtonTolSq)) :=
+  unmap_map_H2_parallelogram V hV s0 s1 hpar hdet
+
+/-- **Duality of discontinuous P1 on every quadrilateral / hexahedron** (any vertex coordinates with a regular Jacobian
+    at the cell centre; general multilinear cells included): the model of the node functionals (`d1Functional`, executed
+    by op `interp`: value at the image of the centre, half differences between the images of opposite facet centres)
+    applied to the model of the evaluator's basis (`d1Value`, ops `ev`/`evpts`/`evcfg`/`interp`: `1, pt_1, …, pt_d` in
+    the coordinates of the linearised cell) is the identity matrix. -/
+theorem C15.d1_hypercube_dual (d : Nat) (hd : d = 2 ∨ d = 3) (V : List (List Rat)) (hV : worldDim V = d)
+    (hdet : det d (jacMat Kind.H d V (List.replicate d 0)) ≠ 0) (j l : Nat) (hj : j < d + 1) (hl : l < d + 1) :
+    d1Functional d V l (d1Value d V j) = if j = l then 1 else 0 :=
+  d1_dual d hd V hV hdet j l hj hl
+
+/-- **Rannacher–Turek duality without an invertibility hypothesis**: `rtPrepareChecked` is what the driver executes for
+    every Rannacher–Turek case (`npEval`); it returns a cell only if the facet row is complete and the computed
+    coefficient matrix times the nodal matrix is the identity (exact rational test, otherwise the driver prints `ABORT`,
+    which the correspondence run reports as a disagreement).  So for **every cell on which the driver produced an
+    evaluation**, the facet-weighted means are dual to the basis. -/
+theorem C15.rt_facet_mean_dual_checked (sq : Rat → Rat) (g : Rat) (m : Mesh) (c : Nat) (rc : RTCell)
+    (h : rtPrepareChecked sq g m c = some rc) (j l : Nat) (hj : j < rtN m.dim) (hl : l < rtN m.dim) :
+    rtFunctional sq g m ((m.row m.dim (m.dim - 1) c).getD l 0) (rtValue rc j) = if j = l then 1 else 0 :=
+  rt_dual_checked sq g m c rc h j l hj hl
+
+/-- non-vacuity: the check passes on the witness cell (so `rtPrepareChecked` returns a cell there) -/
+example : (rtPrepareChecked FeatModel.Proto.qsqrt gammaEv cubeMoved7 0).isSome = true := by
+  have h := witness_inverse
+  unfold rtInverseOk at h
+  unfold rtPrepareChecked
+  cases hp : rtPrepare FeatModel.Proto.qsqrt gammaEv cubeMoved7 0 with
+  | none => simp [hp] at h
+  | some rc =>
+    simp only [hp] at h
+    have hlen : ((cubeMoved7.row cubeMoved7.dim (cubeMoved7.dim - 1) 0).length == rtN cubeMoved7.dim) = true := by
+      decide +kernel
+    have h' := eq_of_beq h
+    simp [hlen, h']
 
 /-! Non-vacuity of the hypotheses used above. -/
 example : ((Fam.L3, Kind.H, 2) : Key) ∈ checkedKeys := by decide
